@@ -92,10 +92,35 @@ class Dummy:
         return 0
 
 
+class TextObj(str):
+    """what the fake sa.text() returns: the statement text, with bound parameters carried along like a TextClause"""
+
+    def __new__(cls, s, params=None):
+        o = str.__new__(cls, s)
+        o.params = dict(params or {})
+        return o
+
+    @property
+    def text(self):
+        return str(self)
+
+    def bindparams(self, *a, **kw):
+        p = dict(self.params)
+        p.update(kw)
+        return TextObj(str(self), p)
+
+    def rendered(self):
+        """bound integer parameters substituted into the text"""
+        out = str(self)
+        for k, v in self.params.items():
+            out = out.replace(":" + k, str(v))
+        return out
+
+
 class _FakeSA(Dummy):
     @staticmethod
     def text(s):
-        return s
+        return TextObj(s)
 
 
 def capture_text():
@@ -129,6 +154,8 @@ def template(filters, default_limit=6000):
     sub = subscription(default_limit)
     with NoTracing():
         text, new_filters = sub.build_query(qs)
+    if isinstance(text, TextObj):
+        text = text.rendered()
     return sqlmini.parse(text), H.env, text
 
 
